@@ -22,8 +22,9 @@ Record sobs := {
 
 Definition case : Type := list (op * sobs).
 
-(** the fixed actors: module, two EOAs, two Cosmos accounts, the forwarder contract, a cold address *)
-Definition actors : list acct := [0; 1; 2; 3; 4; 5; 6]%nat.
+(** the fixed actors: module, two EOAs, two Cosmos accounts, the forwarder contract, a cold address, the forwarder's
+    CosmWasm (reflect) contract *)
+Definition actors : list acct := [0; 1; 2; 3; 4; 5; 6; 7]%nat.
 Definition actors_e (t : tok) : list acct := actors ++ [tok_addr t].
 
 Definition mapping_eqb (a b : mapping) : bool :=
